@@ -213,9 +213,9 @@ def odd_names_project(layout: str) -> T.Dict[str, T.Any]:
 def main(chk: Check) -> None:
     quick = chk.tier == 'quick'
     rnd = random.Random(chk.seed * 1000003 + 4)
-    n_family = 32 if quick else 1000
-    n_random = 16 if quick else 300
-    n_corpus = 24 if quick else 10000
+    n_family = 44 if quick else 1400
+    n_random = 24 if quick else 400
+    n_corpus = 30 if quick else 10000
     n_writer = 10000 if quick else 10 ** 9
     chk.rule = ('A: abstract two-target projects of the TLC family (seeded sample, a quarter each: colliding, non-colliding '
                 'same-name, with tests, any), A\': every graph of <=2 edges through the real manifest writer, '
